@@ -18,7 +18,8 @@ import (
 //
 // A type is described by three things: its Go type name, the dialect's own FormatType string (the
 // dialect's canonical spelling) and every exported parameter field of the type value (Size, Precision,
-// Scale, Unsigned, Len, F, Values, element type …; SQLite's FormatType prints the bare name, so the
+// Scale, Unsigned, Len, F, Values, element type … and the name field T itself: for user-defined types the
+// name IS the type (SQLite keeps any declared type name verbatim); SQLite's FormatType prints the bare name, so the
 // fields are what carries its parameters). Pointer fields are printed dereferenced ("nil" when unset).
 //
 // normalisation rules (descriptor equality "modulo documented defaulting"). A rule exists ONLY because a
@@ -242,7 +243,7 @@ func (x *descr) params(t schema.Type) string {
 	rt := rv.Type()
 	for i := 0; i < rt.NumField(); i++ {
 		f := rt.Field(i)
-		if !f.IsExported() || f.Name == "T" {
+		if !f.IsExported() {
 			continue
 		}
 		fv := rv.Field(i)
@@ -456,6 +457,14 @@ func (x *descr) normParam(t schema.Type, field string, fv reflect.Value) (string
 		case "double precision", "float8":
 			x.rule("pg-float-precision-default")
 			return "53", true
+		}
+	}
+	if tt, ok := t.(*schema.TimeType); ok && field == "T" && x.d.name == "postgres" {
+		alias := map[string]string{"timestamp with time zone": "timestamptz", "timestamp without time zone": "timestamp",
+			"time without time zone": "time", "time with time zone": "timetz"}
+		if a, ok := alias[strings.ToLower(tt.T)]; ok {
+			x.rule("pg-time-alias")
+			return strconv.Quote(a), true
 		}
 	}
 	if x.d.name == "postgres" && field == "Len" && isType(t, "*postgres.BitType") && fv.Int() == 0 {
